@@ -180,6 +180,23 @@ def run(cx):
         non = cx.returns(fc, r'^Option::None$')
         cx.guard('C11.G1', non, {'only-at-root': r'^LowerName::is_root\(\^arg2\)$'}, expect=1, fn=fc)
 
+    # ---------------------------------------------------------------- L1 an undeliverable reply never blocks the UDP listener
+    # handle_udp polls UdpStream::poll_next and `continue`s on every error but NotConnected.  poll_next sends the head of the reply
+    # queue before it receives anything: once poll_send_to has completed (Ok or Err) the reply must leave the queue before the poll
+    # can end in anything but Pending, or the same undeliverable reply (EMSGSIZE for a 65535-octet reply, an unreachable source) is
+    # peeked again on every later poll and no request is ever received again ("no request content makes the handler stop serving")
+    us = cx.fn('C11.L1', r'<hickory_net::udp::udp_stream::UdpStream<P> as futures_core::stream::Stream>::poll_next')
+    if us:
+        snd = cx.calls(us, r'DnsUdpSocket::poll_send_to$')
+        pop = cx.calls(us, r'<futures_util::stream::stream::peek::Peekable<S> as futures_core::stream::Stream>::poll_next$|Peekable<.*> as .*Stream>::poll_next$')
+        cx.check('C11.L1', len(snd) == 1 and len(pop) == 1, us.path, 'calls', 'one-send-one-pop', f'send={len(snd)} pop={len(pop)}')
+        if snd and pop:
+            done = [x for x in us.succs(snd[0].bb) if not us.blocks[x]['cleanup']]
+            after = cx.reachable_from(us, done)
+            late = [r_ for r_ in cx.returns(us, r'.') if r_.bb in after and r_.term != 'Poll::Pending']
+            cx.must_pass('C11.L1', us, late, via_blocks={pop[0].bb}, start_blocks=done, what='send-completed=>reply-popped-before-the-poll-ends')
+            cx.floor('C11.L1', len(late), 2, 'non-Pending returns of UdpStream::poll_next after a send attempt')
+
     # ---------------------------------------------------------------- H helper semantics the guards above rely on (rules/helpers.py)
     helpers.check(cx, 'C11.H', ['Edns::version', 'LowerName::base_name', 'LowerName::is_root', 'AccessControl::allow'])
 
